@@ -5,3 +5,4 @@ import Dtr.Props.C13
 #print axioms Dtr.C13_wrong_length
 #print axioms Dtr.C13_wrong_order
 #print axioms Dtr.C13_no_misattribution
+#print axioms Dtr.C13_prefix_determinacy
